@@ -18,6 +18,46 @@ ALL_SC = list(SC_C)
 PRELUDE = ("enum c08_e4 { C08_E4A = -1, C08_E4B = 100 };\n"
            "enum c08_e8 { C08_E8A = 0, C08_E8B = 0x100000000 };\n")
 
+# enumerated types whose extreme enumerators sit on the int / unsigned int / long boundaries, with and
+# without a negative enumerator.  Scalar name (also the driver's token): "E:<least>:<greatest>".
+INT_MAX, UINT_MAX, INT_MIN = 2147483647, 4294967295, -2147483648
+BOUND_ENUMS = [(0, INT_MAX - 1), (0, INT_MAX), (0, INT_MAX + 1), (0, UINT_MAX), (0, UINT_MAX + 1),
+               (-1, INT_MAX - 1), (-1, INT_MAX), (-1, INT_MAX + 1), (-1, UINT_MAX), (-1, UINT_MAX + 1),
+               (INT_MIN + 1, 5), (INT_MIN, 0), (INT_MIN, INT_MAX), (INT_MIN - 1, 0), (INT_MIN - 1, INT_MAX + 1)]
+
+
+def enum_name(mn, mx):
+    return f"E:{mn}:{mx}"
+
+
+def enum_size(mn, mx):
+    """the platform compiler's rule (GCC manual, implementation-defined behaviour of enumerations)"""
+    if mn >= 0:
+        return 4 if mx <= UINT_MAX else 8
+    return 4 if (INT_MIN <= mn and mx <= INT_MAX) else 8
+
+
+def c_int(v):
+    if v == INT_MIN:
+        return "(-2147483647 - 1)"
+    if v > 2 ** 63 - 1:
+        return f"{v}UL"
+    return f"({v}L)" if v < INT_MIN or v > INT_MAX else str(v)
+
+
+ENUM_NAMES = []
+for _i, (_mn, _mx) in enumerate(BOUND_ENUMS):
+    _n = enum_name(_mn, _mx)
+    ENUM_NAMES.append(_n)
+    SC_C[_n] = f"enum c08_eb{_i}"
+    SC_SIZE[_n] = enum_size(_mn, _mx)
+    PRELUDE += f"enum c08_eb{_i} {{ C08_EB{_i}A = {c_int(_mn)}, C08_EB{_i}B = {c_int(_mx)} }};\n"
+ENUM_SC = ["enum4", "enum8"] + ENUM_NAMES
+
+
+def is_enum(sc):
+    return sc in ("enum4", "enum8") or sc.startswith("E:")
+
 
 def to_tokens(t):
     """prefix syntax understood by mirdrv_c08"""
@@ -226,7 +266,7 @@ def gen_scalar(rng, allow_ld=True):
         return ("sc", "ldouble")
     if r < 94:
         return ("sc", "ptr")
-    return ("sc", rng.choice(["enum4", "enum8"]))
+    return ("sc", rng.choice(ENUM_SC))
 
 
 def gen_bf(rng, hint=None):
